@@ -4,7 +4,7 @@
 //verif:assume tree: files a (2 symbolic bytes), d/b (1 symbolic byte), e (empty) each present or absent, plus generated-path decoys .datamon/x and d/.datamon (a legal user file); leaf size 64; entries per index file 1..3
 //verif:cover VerifC04Reassembly malformed-middle-file reassembled
 //verif:cover VerifC04Select missing-skipped single-file filtered
-//verif:cover VerifC04UploadDownload decoy-skipped nested-datamon-kept two-index-files empty-bundle source-read-fault-reported unreadable-source-file-skipped
+//verif:cover VerifC04UploadDownload decoy-skipped nested-datamon-kept two-index-files empty-bundle source-read-fault-reported unreadable-source-file-skipped duplicated-content
 package core
 
 import (
@@ -37,7 +37,14 @@ func VerifC04UploadDownload() {
 			}
 		}
 	}
-	add("a", vBytes("ca", 2), true)
+	contentA := vBytes("ca", 2)
+	add("a", contentA, true)
+	add("n/a copy", contentA, true) // the same content under another name (with a space): deduplicated blobs, two entries
+	if _, ok := want["n/a copy"]; ok {
+		if _, ok2 := want["a"]; ok2 {
+			vCover("duplicated-content")
+		}
+	}
 	add("d/b", vBytes("cb", 1), true)
 	add("e", []byte{}, true)
 	if vThorough() {
